@@ -115,6 +115,10 @@ func NewPositionRange(lines []string, val *yaml.Node, minColumn int) (offsets Po
 			goto NEXT
 		}
 
+		if lineIndex == val.Line {
+			// yaml.v3 counts columns in characters, lines are indexed by bytes.
+			columnIndex = byteColumn(lines[lineIndex-1], columnIndex)
+		}
 		columnIndex = min(len(lines[lineIndex-1]), columnIndex)
 
 		lineSpaces = countLeadingSpace(lines[lineIndex-1][columnIndex-1:])
@@ -155,6 +159,17 @@ END:
 		}
 	}
 	return offsets
+}
+
+// byteColumn returns the 1-indexed byte column of the 1-indexed character column.
+func byteColumn(line string, column int) int {
+	for i := range line {
+		if column <= 1 {
+			return i + 1
+		}
+		column--
+	}
+	return len(line) + column
 }
 
 func countLeadingSpace(line string) (i int) {
